@@ -148,6 +148,7 @@ def strat_rule(tier):
         "delta": st.one_of(st.sampled_from([0.0, 1e-9, -1e-9, 1e-6, -1e-6, 1e-3, -1e-3, 0.5, -0.5]), st.floats(-0.9, 3.0)),
         "o": gen.optics(False),
         "omit": st.booleans(),
+        "listing": st.permutations(list(range(5))),
     })
 
 
@@ -198,6 +199,11 @@ def run_rule(case):
                 spheres.append(Sphere(n=[n, n * 1.05], r=[m["r"] * 0.5, m["r"]], center=tuple(c)))
             else:
                 spheres.append(Sphere(n=n, r=m["r"], center=tuple(c)))
+        # the extreme pair may sit anywhere in the listing order (the rule is about all pairs)
+        perm = [i for i in case["listing"] if i < len(spheres)]
+        spheres = [spheres[i] for i in perm]
+        if perm[:2] not in ([0, 1], [1, 0]):
+            labels.append("extreme_pair_not_listed_first")
         with warnings.catch_warnings():
             warnings.simplefilter("ignore")
             s = Spheres(spheres, warn=False)
